@@ -137,7 +137,7 @@ func RuleN2(c *Ctx) {
 					}
 				}
 			}
-			if why, ok := n2Exceptions[fn]; ok {
+			if why := n2ExceptionFor(c, pk, fd); why != "" {
 				if ok2, _ := n2.discharged(cs, sExpr, us.Node, 0); ok2 {
 					sc.Holds(key, pos, "guarded")
 				} else {
@@ -154,8 +154,24 @@ func RuleN2(c *Ctx) {
 	})
 }
 
-var n2Exceptions = map[string]string{
-	"core.(*JApiCore).inheritPropertiesFromUserType": "the base of an allOf rule: the schema library rejects a non-object (hence any non-JSight) allOf base when the referring schema is compiled, before compileCatalog runs",
+// n2ExceptionFor: the one frozen exception, found by role - the function that inserts
+// inherited properties (it calls SchemaContentJSight.Unshift) reads the base type's content.
+func n2ExceptionFor(c *Ctx, pk *pkgT, fd *ast.FuncDecl) string {
+	unshift := c.Func("catalog", "SchemaContentJSight.Unshift")
+	if unshift == nil {
+		return ""
+	}
+	found := false
+	ast.Inspect(fd.Body, func(n ast.Node) bool {
+		if call, ok := n.(*ast.CallExpr); ok && Callee(pk.TypesInfo, call) == unshift {
+			found = true
+		}
+		return !found
+	})
+	if found {
+		return "the base of an allOf rule (in the function that inserts inherited properties): the schema library rejects a non-object (hence any non-JSight) allOf base when the referring schema is compiled, before compileCatalog runs"
+	}
+	return ""
 }
 
 type n2 struct {
